@@ -22,6 +22,10 @@ def ar_model(theta, N, seed):  # noqa: N803
     """cheap stochastic model (importable: joblib ships it to worker processes)"""
     rng = np.random.default_rng(seed)
     th = np.asarray(theta, dtype=float)
+    if os.environ.get("VERIF_SLOW_MODEL"):
+        import time
+
+        time.sleep(0.004 * (int(abs(float(th[0])) * 1000) % 4))   # run time depends on the parameters: out-of-order completion
     a = float(np.tanh(th[0]))
     b = float(th[1 % len(th)])
     x = np.zeros((N, 2))
@@ -128,6 +132,10 @@ def run_variant(cfg: dict, axes: dict) -> list[dict]:
     from .common import quiet
 
     folder = tempfile.mkdtemp(prefix="verif-c01-") if axes.get("saving") else None
+    if axes.get("njobs", 1) > 1:
+        os.environ["VERIF_SLOW_MODEL"] = "1"       # (inherited by the worker processes started for this variant)
+    else:
+        os.environ.pop("VERIF_SLOW_MODEL", None)
     evs = [{"e": "variant", "axes": ",".join(f"{k}={v}" for k, v in sorted(axes.items()))}]
     try:
         with quiet():
